@@ -34,10 +34,31 @@ func cmdFunc(args []string) {
 	verif := fs.String("verif", "/verif", "")
 	dump := fs.String("dump", "", "write failing queries to this dir")
 	verbose := fs.Bool("v", false, "")
+	mut := fs.String("mut", "", "apply mutant <prop>:<name> from /verif/mutants (in memory)")
+	tmo := fs.Int("t", 10, "solver timeout (s)")
 	fs.BoolVar(&debugPanics, "panic", false, "")
 	fs.Parse(args)
 	rel, key := fs.Arg(0), fs.Arg(1)
-	w, err := LoadWorld(*repo, *verif, []string{rel}, nil)
+	var overlay map[string][]byte
+	if *mut != "" {
+		parts := strings.SplitN(*mut, ":", 2)
+		for _, m := range loadMutants(*verif, parts[0]) {
+			if len(parts) == 2 && m.Name == parts[1] {
+				path := *repo + "/" + m.File
+				src, _ := os.ReadFile(path)
+				if strings.Count(string(src), m.Old) != 1 {
+					fmt.Fprintln(os.Stderr, "mutant does not apply")
+					os.Exit(2)
+				}
+				overlay = map[string][]byte{path: []byte(strings.Replace(string(src), m.Old, m.New, 1))}
+			}
+		}
+		if overlay == nil {
+			fmt.Fprintln(os.Stderr, "no such mutant")
+			os.Exit(2)
+		}
+	}
+	w, err := LoadWorld(*repo, *verif, []string{rel}, overlay)
 	if err != nil {
 		fmt.Fprintln(os.Stderr, err)
 		os.Exit(2)
@@ -70,7 +91,7 @@ func cmdFunc(args []string) {
 			continue
 		}
 		rep := VerifyFunc(w, rel, c, fn)
-		Discharge(rep.Obls, 10, false, 16)
+		Discharge(rep.Obls, *tmo, false, 16)
 		fmt.Println(rep.String())
 		for _, e := range rep.Errors {
 			fmt.Println("  ERROR:", e)
